@@ -210,8 +210,11 @@ CHECKS = [
              "HourlyBaselineData / HourlyReportingData on 4-40 day frames with NaN cells, absent rows, duplicated rows, zeros, with and without "
              "irradiance, electric and gas, several zones including DST weeks: cell-by-cell comparison with the input, whole-local-day gap-free "
              "index, flag exactness, totality.",
-     "note": "Series.interpolate / ffill / bfill enter as assumed pandas contracts; remove_duplicates, the zero -> NaN step and the contiguous "
-             "index of _set_data are decided end to end by the bounded part only",
+     "note": "_HourlyData._set_data is also proved end to end for one arbitrary label that may be absent, present once or duplicated (the cells are "
+             "those of its first occurrence): copy, zero -> NaN for electricity only, first duplicate kept (reindex would raise otherwise: uniqueness "
+             "obligation), every supplied label once on the grid, keep / flag through the real interpolate(). Assumed: the pandas contracts of "
+             "interpolate / ffill / bfill / reindex / date_range / index.duplicated, and the property's precondition that every supplied label is a "
+             "point of the hourly grid; that the grid covers whole LOCAL days (DST) is decided by the bounded part only",
      "not_covered": ["frames longer than the bounded part's spans for the data-class skeleton", "the numeric quality of filled values (not part of the property)"],
      },
 ]
